@@ -67,7 +67,11 @@ META = {
              "evaluated by the direct oracle on the real code for every case and are part of what the correspondence compares. "
              "Trusted: Lean kernel; the model<->code correspondence on generated tuples (quick 4000, thorough 60000); Go's time "
              "package as data (month boundaries are observed, CalOK is assumed for the theorems and checked on the observed "
-             "boundaries). Known finding: monthly step combined with a non-zero metric time offset miscounts months "
-             "(sig month-offset-*)."),
+             "boundaries). Known finding (no small fix): monthly step combined with a non-zero metric time offset "
+             "miscounts months (sig month-offset-coverage). Defect found by this check and fixed in /repo (4a206645, "
+             "fixes/C22-month-start.diff): in zones where 00:00 of the 1st does not exist (DST switched on at midnight: "
+             "America/Asuncion 2000-10-01 and 2017-10-01, Europe/Moscow 1981-04-01, ...) StepForward/startOfLOD left the month grid "
+             "(sigs month-step-not-month-start, month-start-not-month-start, month-start-inconsistent, gap, unaligned, "
+             "point-unaligned, lods-to-vs-points); the old behaviour is kept as a decide witness (calGapOld) in SH/Props/C22.lean."),
     "design_ref": "DESIGN.md §6 C22",
 }
